@@ -17,7 +17,7 @@ import (
 // evaluates the tree per logical row; the result must hold exactly the rows evaluating
 // to true, in frame order, all columns intact, Err nil.
 
-var evC02 = ev.New("C02", "derived frame (two columns per type, nulls) x clause tree depth<=3 over all comparators/argument kinds; "+
+var evC02 = ev.New("C02", "derived frame (two columns per type, nulls) x clause tree depth<=3 over all comparators/argument kinds (like/ilike patterns fixed or derived from the column values in another case); "+
 	"non-trivial = tree has >=2 leaves or a negated leaf on a column containing null, non-identity index, result neither empty nor everything; "+
 	"distinct = FNV-64 of (base table, route, clause)")
 
